@@ -9,7 +9,7 @@ import warnings
 
 import numpy as np
 
-from hyverif.core import digest
+from hyverif.core import digest, same_result, _first_diff
 
 from hyverif.oracles import transforms_ref as tr
 
@@ -44,6 +44,7 @@ OBLIGATIONS.update({"branch:power-lam": 50, "branch:yj-lam": 50,
                     "branch:manly-lam0": 10, "monotone-pairs": 1000,
                     "adjacent-floats": 50, "jacobian-before-forward": 100,
                     "clipped-request": 100, "softmax:buffer-refilled": 10,
+                    "mixed-domain-array": 100,
                     "monotone:reused-object": 100})
 
 
@@ -200,6 +201,28 @@ def run_config(ctx, case):
     # the same points in another memory layout / container: same Jacobian
     with np.errstate(all="ignore"):
         aj = float(np.nanmax(np.abs(J[np.isfinite(J)]), initial=0.0))
+    if name not in ("Identity", "Sinh", "Manly", "YeoJohnson") and len(x) >= 3:
+        # an array that also holds points outside the domain (first, in the middle and
+        # last): the interior points get the same Jacobian / forward value as before
+        outside = {"Logit": [ref.lower - 1.0, ref.lower, ref.lower + ref.delta,
+                             ref.lower + ref.delta + 2.0] if name == "Logit" else None,
+                   }.get(name) or [-(abs(actual.get("nu", 1.0)) + 1.0) * 3.0 - 1e6,
+                                   float("nan"), float("-inf")]
+        pos = sorted(set([0, len(x) // 2, len(x)]))
+        xm = np.insert(x, pos, [outside[i % len(outside)] for i in range(len(pos))])
+        keep = np.ones(len(xm), dtype=bool)
+        keep[[p_ + i for i, p_ in enumerate(pos)]] = False
+        ctx.tag("mixed-domain-array")
+        ctx.api(f"{name}.jacobian")
+        ctx.api(f"{name}.forward")
+        Jm = np.asarray(call(t.jacobian, xm.copy()), dtype=float)
+        ym = np.asarray(call(t.forward, xm.copy()), dtype=float)
+        okm = Jm.shape == xm.shape and same_result(Jm[keep], J, 1e-13) and \
+            same_result(ym[keep], y0, 1e-13)
+        ctx.check("interior-unaffected-by-outside-points", okm,
+                  f"{name}|interior-values-change-when-array-holds-outside-points", case,
+                  lambda: {"first_diff_jacobian": _first_diff(Jm[keep], J),
+                           "first_diff_forward": _first_diff(ym[keep], y0)})
     if int(case["seed"]) % 3 == 0:
         with np.errstate(all="ignore"):
             ay0 = float(np.nanmax(np.abs(y0[np.isfinite(y0)]), initial=0.0))
